@@ -578,6 +578,7 @@ package litefs
 // rollbackJournal: every accepted record is written back through writeDatabasePage; the size is restored
 // to the header's page count iff a valid header was read; the database is fsynced before the journal is removed.
 //@ func (db *DB) rollbackJournal [C17,C05]
+//@   ensures   old(walKeysPositive(db)) ==> walKeysPositive(db)
 //@   requires  dbWF(db)
 //@   ghost synced bool = false
 //@   ghost truncated bool = false
@@ -775,6 +776,7 @@ package litefs
 
 // recover: the journal is rolled back first, then the WAL is checkpointed; both errors propagate.
 //@ func (db *DB) recover [C05,C17,C11,C13]
+//@   ensures   old(walKeysPositive(db)) ==> walKeysPositive(db)
 //@   requires  dbWF(db)
 //@   ghost stage int = 0
 //@   on call DB.rollbackJournal assert stage == 0 ; then stage = (ret0 == nil ? 1 : stage)
@@ -787,6 +789,7 @@ package litefs
 // offsets readWALPageOffsets returned; the size is restored to the last commit iff there was one; then the
 // WAL is truncated to zero, the in-memory WAL checksums are dropped and the SHM is rewritten.
 //@ func (db *DB) CheckpointNoLock [C05,C17,C03]
+//@   ensures   old(walKeysPositive(db)) ==> walKeysPositive(db)
 //@   requires  dbWF(db)
 //@   ghost stage int = 0
 //@   ghost nonEmpty bool = false
@@ -839,7 +842,7 @@ package litefs
 // Open: header → ltx dir → SHM removed → newest LTX chosen → WAL trimmed to it → journal rolled back and WAL
 // checkpointed → checksums rebuilt → newest LTX re-applied under the full write lock, which is released on every return.
 //@ func (db *DB) Open [C05,C11]
-//@   requires  dbWF(db) && locksWF(db)
+//@   requires  dbWF(db) && locksWF(db) && walKeysPositive(db) && db.store.Exit != nil
 //@   ghost stage int = 0
 //@   ghost locked bool = false
 //@   on call DB.initFromDatabaseHeader assert stage == 0 ; then stage = (ret0 == nil ? 1 : stage)
